@@ -304,3 +304,50 @@ Theorem c16_src_xor_bytes : forall (dst a b : list N) fuel,
   else Lib.GoSem.Panic.
 Proof. exact src_xor_bytes. Qed.
 Print Assumptions c16_src_xor_bytes.
+
+(* ---- source tie: the UNROLLED STRUCTURE of encrypt8/16 and decrypt8/16 ----
+   Generated/CipherShape.v (tools/goshape, rewritten from x/cipher/block.go on every run)
+   lists the statements of the four routines; C16/Shape.v gives each statement form its
+   meaning on the model's memory.  For every block function E and every memory s:
+     - the header constants are the model's: tbl = buf[0:bs], next = buf[bs:2bs] (decrypt),
+       block.Encrypt(tbl, iv), n = len(src)/bs, n/8 iterations over windows of 8*bs bytes,
+       switch n%8, and the function contains no statement beyond the recognised skeleton;
+     - the statements of the loop body are the model's enc_stride / dec_stride and advance
+       base by 8*bs;
+     - entering the switch at label k (every k of 0..7) runs the model's enc_tail k /
+       dec_tail k followed by the remainder enc_rem / dec_rem.
+   (Trusted: the pattern matcher of tools/goshape and the semantics of the six statement
+   forms in Shape.v; see its header.) *)
+From FV Require Import Lib.CfbShape Generated.CipherShape C16.Shape.
+
+Theorem c16_src_shape_encrypt8 : forall E s,
+  header_ok go_encrypt8_shape 8 false = true /\
+  interp_stmts 8 E MD (sh_body go_encrypt8_shape) (mkist 0 8 0 s) = Some (mkist 0 8 (8 * 8) (enc_stride 8 E s)) /\
+  Forall (fun k => option_map i_st (interp_switch 8 E MD (sh_cases go_encrypt8_shape) (Z.of_nat k) (mkist 0 8 0 s)) =
+                   Some (enc_rem 8 (enc_tail 8 E k (0%nat, s)))) all_k.
+Proof. intros E s. exact (conj src_encrypt8_header (conj (src_encrypt8_body E s) (src_encrypt8_tail E s))). Qed.
+Print Assumptions c16_src_shape_encrypt8.
+
+Theorem c16_src_shape_encrypt16 : forall E s,
+  header_ok go_encrypt16_shape 16 false = true /\
+  interp_stmts 16 E MD (sh_body go_encrypt16_shape) (mkist 0 16 0 s) = Some (mkist 0 16 (8 * 16) (enc_stride 16 E s)) /\
+  Forall (fun k => option_map i_st (interp_switch 16 E MD (sh_cases go_encrypt16_shape) (Z.of_nat k) (mkist 0 16 0 s)) =
+                   Some (enc_rem 16 (enc_tail 16 E k (0%nat, s)))) all_k.
+Proof. intros E s. exact (conj src_encrypt16_header (conj (src_encrypt16_body E s) (src_encrypt16_tail E s))). Qed.
+Print Assumptions c16_src_shape_encrypt16.
+
+Theorem c16_src_shape_decrypt8 : forall E s,
+  header_ok go_decrypt8_shape 8 true = true /\
+  interp_stmts 8 E MS (sh_body go_decrypt8_shape) (mkist 0 8 0 s) = Some (mkist 0 8 (8 * 8) (dec_stride 8 E s)) /\
+  Forall (fun k => option_map i_st (interp_switch 8 E MS (sh_cases go_decrypt8_shape) (Z.of_nat k) (mkist 0 8 0 s)) =
+                   Some (dec_rem 8 (dec_tail 8 E k ((0%nat, 8%nat), (0%nat, s))))) all_k.
+Proof. intros E s. exact (conj src_decrypt8_header (conj (src_decrypt8_body E s) (src_decrypt8_tail E s))). Qed.
+Print Assumptions c16_src_shape_decrypt8.
+
+Theorem c16_src_shape_decrypt16 : forall E s,
+  header_ok go_decrypt16_shape 16 true = true /\
+  interp_stmts 16 E MS (sh_body go_decrypt16_shape) (mkist 0 16 0 s) = Some (mkist 0 16 (8 * 16) (dec_stride 16 E s)) /\
+  Forall (fun k => option_map i_st (interp_switch 16 E MS (sh_cases go_decrypt16_shape) (Z.of_nat k) (mkist 0 16 0 s)) =
+                   Some (dec_rem 16 (dec_tail 16 E k ((0%nat, 16%nat), (0%nat, s))))) all_k.
+Proof. intros E s. exact (conj src_decrypt16_header (conj (src_decrypt16_body E s) (src_decrypt16_tail E s))). Qed.
+Print Assumptions c16_src_shape_decrypt16.
